@@ -578,6 +578,9 @@ func (gen *Generator) GenerateInclude(args []Sexp) error {
 				expr = list.Tail
 			}
 		case *SexpStr:
+			if gen.env.sandboxed {
+				return fmt.Errorf("include: reading files is not available in a sandboxed interpreter")
+			}
 			exps, err = gen.env.ParseFile(t.S)
 			if err != nil {
 				return err
